@@ -22,6 +22,7 @@ class SourceModule(Object):
         self.declared_at = 1, 0
         self._analysing = False
         self._partial = False
+        self._checking = False
 
     def __repr__(self):
         # type: () -> str
@@ -30,7 +31,19 @@ class SourceModule(Object):
     @property
     def changed(self):
         # type: () -> bool
-        return self.mtime != getmtime(self.filename)
+        if self.mtime != getmtime(self.filename):
+            return True
+
+        # the analysis holds a copy of the names of the modules it
+        # star-imports: it is as old as the oldest of them
+        scope = self.__dict__.get('_scope')
+        if scope is None or self._checking:
+            return False
+        self._checking = True
+        try:
+            return any(m.changed for m in scope.star_modules)
+        finally:
+            self._checking = False
 
     @property
     def scope(self):
